@@ -106,15 +106,77 @@ def corrupt_fail(world, st):
 CORR = {"entitled_withdrawal_failed": corrupt_fail}
 
 
+def churn_world(acc, key, cycles):
+    """one holder stays in a pool while another provides and withdraws 2^119 per asset hundreds of times: the amounts ever
+    paid out by the pair add up beyond 2^128. Every withdrawal (all of them entitled: whole balances of ~2^119) must succeed."""
+    from ..core import Server, sub_rng
+    from ..world import World, err_text
+    srv = Server()
+    try:
+        rng = sub_rng(*key)
+        w = World(srv, rng, scale_bits=40, whitelist_mode="two")
+        p = rng.choice([q for q in w.pairs if q.kind() == "nn"] or w.pairs[:1])
+        if p.kind() != "nn":
+            for a in p.assets:
+                if a[0] == "t":
+                    for who in ("lp1", "lp2"):
+                        w.x(who, a[1], {"increase_allowance": {"spender": p.addr, "amount": str((1 << 127) - 1)}})
+        big = 1 << 119
+        # (a first provision needs d0*d1 < 2^128, any provision (r0+d0)(r1+d1)*1e18 < 2^256: a skewed pool 2^45 : 1)
+        st = w.step(w.op_provide("lp2", p, [1 << 86, 1 << 41]))
+        if not st.ok:
+            acc.count("churn_seed_failed")
+            acc.cls("churn_seed_failed", err_text(st.res)[:80])
+            return
+        paid = 0
+        for i in range(cycles):
+            r0, r1 = p.reserves(w.ledger)
+            # proportional to the pool
+            st = w.step(w.op_provide("lp1", p, [big, max(1, big * r1 // r0)]))
+            acc.ev()
+            if not st.ok:
+                acc.count("churn_provide_failed")
+                break
+            bal = w.ledger.get("lp1", p.lp)
+            st = w.step(w.op_withdraw("lp1", p, bal))
+            acc.ev()
+            acc.count("churn_withdrawals")
+            if not st.ok:
+                acc.violation("withdrawal #%d of a whole balance (%d LP) failed after %d x 2^119 had been paid out by the pair: %s"
+                              % (i + 1, bal, i, err_text(st.res)[:160]),
+                              {"kind": "churn", "world_key": list(key), "cycle": i})
+                return
+            paid += big
+            if p.kind() != "nn" and i % 100 == 99:
+                for a in p.assets:
+                    if a[0] == "t":
+                        w.x("lp1", a[1], {"increase_allowance": {"spender": p.addr, "amount": str(1 << 126)}})
+        bal = w.ledger.get("lp2", p.lp)
+        st = w.step(w.op_withdraw("lp2", p, bal // 2))
+        acc.ev()
+        acc.cls("churn", p.kind(), "paid>2^128" if paid >= 1 << 128 else "paid<2^128", st.res["r"])
+        if paid >= 1 << 128:
+            acc.count("churn_worlds_beyond_2^128")
+        if not st.ok:
+            acc.violation("the remaining holder's withdrawal failed after the pair had paid out %d in total: %s"
+                          % (paid, err_text(st.res)[:160]), {"kind": "churn", "world_key": list(key)})
+    finally:
+        srv.close()
+
+
 def run_shard(acc, prop, tier, seed, shard, nshards, **kw):
     w = dict(WEIGHTS)
     w.pop("inject")
     _w.shard(acc, PROP, tier, seed, shard, nshards, factory, w, (16, (140, 220)), (300, (140, 300)), CORR, pre_hook=pre_hook)
+    from .. import core as _core
+    if _core.ONLY_WORLD is None and (tier == "thorough" or shard % 4 == 0):
+        churn_world(acc, (seed, PROP, tier, shard, "churn"), 530)
 
 
 def floors(acc, tier):
     msgs = _w.canary_floor(acc, CORR)
     _w.need(acc, msgs, "entitled_attempts", 5000)
+    _w.need(acc, msgs, "churn_worlds_beyond_2^128", 2)
     after = set(k.split("|")[-1] for k in acc.classes if "|entitled|" in k)
     if len(after) < 6:
         msgs.append("entitled withdrawals followed only %s" % sorted(after))
